@@ -410,6 +410,40 @@ def load(kind: str, path: Path, keys: list) -> dict:
     return out
 
 
+def run_script(kind: str, path: Path, version: int, objs: list, script: list, bufsize: int):
+    """ONE long-lived library object goes through the sessions of `script`:
+         script = [(mode, [(op, i), ...]), ...]   mode 'w' = writing(), 'r' = reading(); op 'put' | 'get' | 'keys'
+       record i is stored under key f"k{i}".  Returns the observations [(session, position, op, i, result)]
+       (result: the object read / sorted key list / None for a put / the exception raised)."""
+    new_library_file(kind, path, version)
+    obs = []
+    n_ops = sum(len(ops) for _, ops in script)
+    with hard_timeout(SESSION_TIMEOUT + 0.1 * n_ops, "mixed sessions"):
+        lib = lib_class(kind)(path, readonly=False, bufsize=bufsize)
+        for si, (mode, ops) in enumerate(script):
+            try:
+                with (lib.writing(timeout=SESSION_TIMEOUT) if mode == "w" else lib.reading(timeout=SESSION_TIMEOUT)):
+                    for oi, (op, i) in enumerate(ops):
+                        try:
+                            if op == "put":
+                                lib[f"k{i}"] = objs[i]
+                                res = None
+                            elif op == "get":
+                                res = lib[f"k{i}"]
+                            else:
+                                res = sorted(lib.keys())
+                        except HardTimeout:
+                            raise
+                        except Exception as e:  # noqa: BLE001
+                            res = e
+                        obs.append((si, oi, op, i, res))
+            except HardTimeout:
+                raise
+            except Exception as e:  # noqa: BLE001   (raised by entering / leaving the session, e.g. the flush)
+                obs.append((si, len(ops), "session", -1, e))
+    return obs
+
+
 def put_raw(path: Path, version: int, kind: str, items: list):
     """a library file whose records are the given wire tuples (decoder probing)"""
     import msgpack
